@@ -79,6 +79,29 @@ var (
 	envDevMax  int
 )
 
+// EnvChoices is embedded in case records so that a violation found under per-Read deviations replays exactly.
+type EnvChoices struct {
+	Choices []int `json:"env_choices,omitempty"`
+	DevMax  int   `json:"dev_max,omitempty"`
+}
+
+// currentEnvChoices captures the deviations of the execution in progress.
+func currentEnvChoices() EnvChoices {
+	if envChooser == nil {
+		return EnvChoices{}
+	}
+	return EnvChoices{Choices: envChooser.Choices(), DevMax: envDevMax}
+}
+
+// withEnvChoices re-installs recorded deviations around body (replay).
+func withEnvChoices(e EnvChoices, body func()) {
+	if e.DevMax > 0 {
+		envChooser, envDevMax = mc.NewReplayChooser(e.Choices), e.DevMax
+		defer func() { envChooser, envDevMax = nil, 0 }()
+	}
+	body()
+}
+
 // exploreEnv runs body under every combination of at most `bound` per-Read deviations (1 byte, empty read, half,
 // everything-with-the-error) on the first 24 reads of every EnvReader the body creates (E1).
 func exploreEnv(c *mc.Ctx, bound int, body func()) (executions int64, complete bool) {
